@@ -93,11 +93,34 @@ Variable tb : tables.
 Hypothesis Htb : tables_ok tb = true.
 
 Lemma tb_parts :
-  type_lists_ok tb = true /\ guards_ok tb = true /\ pixel_zeros_ok tb = true /\ no_raw_base_setter tb = true.
+  type_lists_ok tb = true /\ guards_ok tb = true /\ pixel_zeros_ok tb = true /\ no_raw_setter tb = true
+  /\ iadd_through_setters tb = true /\ eq_shape_ok tb = true /\ reads_guarded tb = true /\ resets_ok tb = true
+  /\ base_iadd_on_copy tb = true.
 Proof.
   pose proof Htb as H. unfold tables_ok in H.
+  apply andb_prop in H. destruct H as [H H9].
+  apply andb_prop in H. destruct H as [H H8]. apply andb_prop in H. destruct H as [H H7].
+  apply andb_prop in H. destruct H as [H H6]. apply andb_prop in H. destruct H as [H H5].
   apply andb_prop in H. destruct H as [H H4]. apply andb_prop in H. destruct H as [H H3].
-  apply andb_prop in H. destruct H as [H1 H2]. auto.
+  apply andb_prop in H. destruct H as [H1 H2]. auto 14.
+Qed.
+
+Lemma base_iadd_kinds : b_iadd tb = BIOnCopy /\ b_add tb = BIOnCopy.
+Proof.
+  destruct tb_parts as [_ [_ [_ [_ [_ [_ [_ [_ H]]]]]]]]. unfold base_iadd_on_copy in H.
+  destruct (b_iadd tb), (b_add tb); try discriminate; auto.
+Qed.
+
+Lemma iadd_kinds : ph_iadd tb = IAddSetters /\ ph_add tb = IAddSetters.
+Proof.
+  destruct tb_parts as [_ [_ [_ [_ [H _]]]]]. unfold iadd_through_setters in H.
+  destruct (ph_iadd tb), (ph_add tb); try discriminate; auto.
+Qed.
+
+Lemma eq_kinds : base_eq tb = EqBothNone /\ ph_eq_geom tb = true.
+Proof.
+  destruct tb_parts as [_ [_ [_ [_ [_ [H _]]]]]]. unfold eq_shape_ok in H.
+  destruct (base_eq tb); [discriminate|]. auto.
 Qed.
 
 Lemma tl_allowed k d : in_type_list tb k d = true -> spec_allowed k d = true.
@@ -146,6 +169,18 @@ Proof. reflexivity. Qed.
 Lemma validate_base_with_content c x a : validate_base tb (with_content c x) a = validate_base tb c a.
 Proof. reflexivity. Qed.
 
+Lemma check2d_with_data c a d : photon_check2d tb c (with_data a d) = photon_check2d tb c a.
+Proof. reflexivity. Qed.
+
+Lemma check2d_with_content c x a : photon_check2d tb (with_content c x) a = photon_check2d tb c a.
+Proof. reflexivity. Qed.
+
+Lemma check3d_with_data c a d : photon_check3d tb c (with_data a d) = photon_check3d tb c a.
+Proof. reflexivity. Qed.
+
+Lemma check3d_with_content c x a : photon_check3d tb (with_content c x) a = photon_check3d tb c a.
+Proof. reflexivity. Qed.
+
 Lemma arr_ok_base_of_validate c a :
   is_photon (c_kind c) = false -> validate_base tb c a = None -> arr_ok (c_kind c) (c_rows c) (c_cols c) a = true.
 Proof.
@@ -165,6 +200,9 @@ Lemma inv_with_content c x :
   inv_b (with_content c x) = match x with None => true | Some a => arr_ok (c_kind c) (c_rows c) (c_cols c) a end.
 Proof. reflexivity. Qed.
 
+Lemma is_photon_kind c : is_photon (c_kind c) = true -> c_kind c = Photon.
+Proof. destruct (c_kind c); simpl; intro H; try discriminate; reflexivity. Qed.
+
 (* ---------------------------------------------------------------- ArrayBase classes *)
 
 Lemma base_set_inv c a : is_photon (c_kind c) = false -> Inv c -> Inv (fst (base_set tb c a)).
@@ -173,66 +211,60 @@ Proof.
   unfold Inv. rewrite inv_with_content. apply arr_ok_base_of_validate; assumption.
 Qed.
 
-Lemma base_iadd_inv c a : is_photon (c_kind c) = false -> Inv c -> Inv (fst (base_iadd tb c a)).
+Lemma base_iadd_inv k c a : is_photon (c_kind c) = false -> Inv c -> Inv (fst (base_iadd tb k c a)).
 Proof.
   intros Hk Hc. unfold base_iadd. destruct (c_content c) as [cur|] eqn:Ec.
-  - destruct (is_xr a || is_xr cur); [exact Hc|].
+  - destruct (is_xr cur); [exact Hc|].
     unfold np_iadd.
-    destruct (negb (iadd_ok tb (a_dt cur) (a_dt a))); [exact Hc|].
-    destruct (negb (broadcastable (a_shape a) (a_shape cur))); [exact Hc|].
-    rewrite validate_base_with_data.
-    assert (Hok : Inv (with_content c (Some (with_data cur
-              (zip_add (a_dt cur) (a_data cur) (bcast_data (a_shape cur) (a_shape a) (a_data a))))))).
-    { unfold Inv. rewrite inv_with_content, arr_ok_base_with_data by exact Hk.
-      unfold Inv, inv_b in Hc. rewrite Ec in Hc. exact Hc. }
-    destruct (validate_base tb c cur); exact Hok.
+    destruct (negb (iadd_ok tb (a_dt cur) (a_dt (as_numpy a)))); [exact Hc|].
+    destruct (negb (broadcastable (a_shape (as_numpy a)) (a_shape cur))); [exact Hc|].
+    match goal with |- context [validate_base tb c ?r] => destruct (validate_base tb c r) eqn:Ev end; simpl.
+    + destruct k; [|exact Hc].
+      unfold Inv. rewrite inv_with_content, arr_ok_base_with_data by exact Hk.
+      unfold Inv, inv_b in Hc. rewrite Ec in Hc. exact Hc.
+    + unfold Inv. rewrite inv_with_content. apply arr_ok_base_of_validate; assumption.
   - apply base_set_inv; assumption.
 Qed.
 
-Lemma read2d_arr_base o a : read2d o = RetArr a -> c_content o = Some a.
+Lemma setter_not_raw k : det_setter tb k <> SetterRaw.
 Proof.
-  unfold read2d. destruct (c_content o) as [x|]; [|discriminate].
-  destruct (is_photon (c_kind o) && is_xr x); [discriminate|]. intro H. injection H as ->. reflexivity.
-Qed.
-
-Lemma base_setter_not_raw k : is_photon k = false -> det_setter tb k <> SetterRaw.
-Proof.
-  destruct tb_parts as [_ [_ [_ H]]]. unfold no_raw_base_setter in H. rewrite forallb_forall in H.
-  intros Hk E. assert (Hin : In k [Pixel; Signal; Image; Phase]) by (destruct k; simpl in *; auto; discriminate).
+  destruct tb_parts as [_ [_ [_ [H _]]]]. unfold no_raw_setter in H. rewrite forallb_forall in H.
+  intros E. assert (Hin : In k [Photon; Pixel; Signal; Image; Phase]) by (destruct k; simpl in *; auto 10).
   specialize (H k Hin). rewrite E in H. discriminate.
 Qed.
 
 (* ---------------------------------------------------------------- Photon *)
 
-Lemma photon_set2d_inv c a : c_kind c = Photon -> Inv c -> Inv (fst (photon_set2d tb c a)).
+(* a passed 2-D check: the clipped array is a legal photon content *)
+Lemma check2d_none_ok c a :
+  photon_check2d tb c a = None -> arr_ok Photon (c_rows c) (c_cols c) (clip_arr a) = true.
 Proof.
-  intros Hk Hc. destruct guards as [_ [_ [_ [[e1 G1] [[e2 G2] [[e3 G3] [Gc _]]]]]]].
-  unfold photon_set2d. rewrite G1, G2, G3, Gc. simpl.
-  destruct (is_xr a) eqn:E1; [exact Hc|].
-  destruct (in_type_list tb Photon (a_dt a)) eqn:E2; simpl; [|exact Hc].
+  destruct guards as [_ [_ [_ [[e1 G1] [[e2 G2] [[e3 G3] _]]]]]].
+  unfold photon_check2d. rewrite G1, G2, G3. simpl.
+  destruct (is_xr a) eqn:E1; [discriminate|].
+  destruct (in_type_list tb Photon (a_dt a)) eqn:E2; simpl; [|discriminate].
+  assert (Hfin : shape_eqb (a_shape a) [c_rows c; c_cols c] = true ->
+                 arr_ok Photon (c_rows c) (c_cols c) (clip_arr a) = true).
+  { intro E3. ok_simpl. rewrite (tl_allowed _ _ E2), (is_xr_false _ E1), E3, all_nonneg_clip. reflexivity. }
   destruct (p_ndim tb) as [e4|].
-  - destruct (Nat.eqb (length (a_shape a)) 2); simpl; [|exact Hc].
-    destruct (shape_eqb (a_shape a) [c_rows c; c_cols c]) eqn:E3; simpl; [|exact Hc].
-    unfold Inv. rewrite inv_with_content, Hk. ok_simpl.
-    rewrite (tl_allowed _ _ E2), (is_xr_false _ E1), E3, all_nonneg_clip. reflexivity.
+  - destruct (Nat.eqb (length (a_shape a)) 2); simpl; [|discriminate].
+    destruct (shape_eqb (a_shape a) [c_rows c; c_cols c]) eqn:E3; simpl; [|discriminate]. intros _. auto.
   - destruct (negb (Nat.eqb (length (a_shape a)) 2)); simpl;
-    (destruct (shape_eqb (a_shape a) [c_rows c; c_cols c]) eqn:E3; simpl; [|exact Hc];
-     unfold Inv; rewrite inv_with_content, Hk; ok_simpl;
-     rewrite (tl_allowed _ _ E2), (is_xr_false _ E1), E3, all_nonneg_clip; reflexivity).
+      (destruct (shape_eqb (a_shape a) [c_rows c; c_cols c]) eqn:E3; simpl; [|discriminate]; intros _; auto).
 Qed.
 
-Lemma photon_set3d_inv c a : c_kind c = Photon -> Inv c -> Inv (fst (photon_set3d tb c a)).
+Lemma check3d_none_ok c a :
+  photon_check3d tb c a = None -> arr_ok Photon (c_rows c) (c_cols c) (clip_arr a) = true.
 Proof.
-  intros Hk Hc.
   destruct guards as [_ [_ [_ [_ [_ [_ [_ [[e1 G1] [[e2 G2] [[e3 G3] [[e4 G4] [[e5 G5] [[e6 G6] Gc]]]]]]]]]]]]].
-  unfold photon_set3d. rewrite G1, G2, G3, G4, G5, G6, Gc. simpl.
-  destruct (is_xr a) eqn:E1; simpl; [|exact Hc].
-  destruct (in_type_list tb Photon (a_dt a)) eqn:E2; simpl; [|exact Hc].
-  destruct (Nat.eqb (length (a_shape a)) 3) eqn:E3; simpl; [|exact Hc].
-  destruct (dims_wyx a) eqn:E4; simpl; [|exact Hc].
-  destruct (yx_sizes_ok c a) eqn:E5; simpl; [|exact Hc].
-  destruct (has_wl_coord a) eqn:E6; simpl; [|exact Hc].
-  unfold Inv. rewrite inv_with_content, Hk. ok_simpl.
+  unfold photon_check3d. rewrite G1, G2, G3, G4, G5, G6. simpl.
+  destruct (is_xr a) eqn:E1; simpl; [|discriminate].
+  destruct (in_type_list tb Photon (a_dt a)) eqn:E2; simpl; [|discriminate].
+  destruct (Nat.eqb (length (a_shape a)) 3) eqn:E3; simpl; [|discriminate].
+  destruct (dims_wyx a) eqn:E4; simpl; [|discriminate].
+  destruct (yx_sizes_ok c a) eqn:E5; simpl; [|discriminate].
+  destruct (has_wl_coord a) eqn:E6; simpl; [|discriminate].
+  intros _. ok_simpl.
   rewrite (tl_allowed _ _ E2), all_nonneg_clip.
   unfold dims_wyx in E4. unfold has_wl_coord in E6. unfold yx_sizes_ok, dim_size in E5.
   destruct (a_xr a) as [xi|]; [|discriminate].
@@ -242,212 +274,208 @@ Proof.
   rewrite E5. reflexivity.
 Qed.
 
-Lemma np_iadd_photon_ok r c cur a cur' :
-  arr_ok Photon r c cur = true -> all_nonneg (a_data a) = true -> np_iadd tb cur a = inl cur' ->
-  arr_ok Photon r c cur' = true.
+Lemma photon_set2d_eq c a :
+  photon_set2d tb c a = match photon_check2d tb c a with
+                        | Some e => (c, Raise e)
+                        | None => (with_content c (Some (clip_arr a)), Done)
+                        end.
+Proof. destruct guards as [_ [_ [_ [_ [_ [_ [Gc _]]]]]]]. unfold photon_set2d. rewrite Gc. reflexivity. Qed.
+
+Lemma photon_set3d_eq c a :
+  photon_set3d tb c a = match photon_check3d tb c a with
+                        | Some e => (c, Raise e)
+                        | None => (with_content c (Some (clip_arr a)), Done)
+                        end.
 Proof.
-  intros Hcur Ha. unfold np_iadd.
-  destruct (negb (iadd_ok tb (a_dt cur) (a_dt a))); [discriminate|].
-  destruct (negb (broadcastable (a_shape a) (a_shape cur))); [discriminate|].
-  intro H. injection H as <-. unfold arr_ok, with_data in *.
-  cbn [a_dt a_xr a_shape a_data is_photon ckind_eqb] in *.
-  apply andb_prop in Hcur. destruct Hcur as [Hcur Hnn]. apply andb_prop in Hcur. destruct Hcur as [Hdt Hsh].
-  rewrite Hdt, Hsh. cbn [andb].
-  apply all_nonneg_zip_add; [apply spec_allowed_photon_float; exact Hdt | exact Hnn | apply all_nonneg_bcast; exact Ha].
+  destruct guards as [_ [_ [_ [_ [_ [_ [_ [_ [_ [_ [_ [_ [_ Gc]]]]]]]]]]]]].
+  unfold photon_set3d. rewrite Gc. reflexivity.
 Qed.
 
-Lemma xr_iadd_photon_ok r c cur a cur' :
-  arr_ok Photon r c cur = true -> all_nonneg (a_data a) = true -> xr_iadd tb cur a = Some (inl cur') ->
-  arr_ok Photon r c cur' = true.
+Lemma photon_set2d_inv c a : c_kind c = Photon -> Inv c -> Inv (fst (photon_set2d tb c a)).
 Proof.
-  intros Hcur Ha. unfold xr_iadd.
-  destruct (a_xr cur) as [xc|] eqn:Exc; [|discriminate]. destruct (a_xr a) as [xa|]; [|discriminate].
-  destruct (dims_wyx cur && dims_wyx a && has_wl_coord cur && has_wl_coord a
-            && Nat.eqb (length (a_shape cur)) 3 && Nat.eqb (length (a_shape a)) 3); [|discriminate].
-  destruct (negb (opt_eqb zlist_eqb (x_wl xc) (x_wl xa))); [discriminate|].
-  destruct (negb (shape_eqb (a_shape cur) (a_shape a))); [discriminate|].
+  intros Hk Hc. rewrite photon_set2d_eq. destruct (photon_check2d tb c a) eqn:E; simpl; [exact Hc|].
+  unfold Inv. rewrite inv_with_content, Hk. apply check2d_none_ok. exact E.
+Qed.
+
+Lemma photon_set3d_inv c a : c_kind c = Photon -> Inv c -> Inv (fst (photon_set3d tb c a)).
+Proof.
+  intros Hk Hc. rewrite photon_set3d_eq. destruct (photon_check3d tb c a) eqn:E; simpl; [exact Hc|].
+  unfold Inv. rewrite inv_with_content, Hk. apply check3d_none_ok. exact E.
+Qed.
+
+(* the 3-D check passes only on DataArrays, the 2-D check only on ndarrays *)
+Lemma check3d_none_xr c a : photon_check3d tb c a = None -> is_xr a = true.
+Proof.
+  destruct guards as [_ [_ [_ [_ [_ [_ [_ [[e1 G1] _]]]]]]]].
+  unfold photon_check3d. rewrite G1. simpl. destruct (is_xr a); [reflexivity|discriminate].
+Qed.
+
+Lemma check2d_none_np c a : photon_check2d tb c a = None -> is_xr a = false.
+Proof.
+  destruct guards as [_ [_ [_ [[e1 G1] _]]]].
+  unfold photon_check2d. rewrite G1. simpl. destruct (is_xr a); [discriminate|reflexivity].
+Qed.
+
+Lemma is_xr_clip a : is_xr (clip_arr a) = is_xr a.
+Proof. reflexivity. Qed.
+
+(* after a setter the stored array passes the same setter again *)
+Lemma photon_set2d_accepted c a :
+  is_photon (c_kind c) = true -> accepted tb c = true -> accepted tb (fst (photon_set2d tb c a)) = true.
+Proof.
+  intros Hk Hc. rewrite photon_set2d_eq. destruct (photon_check2d tb c a) eqn:E; simpl; [exact Hc|].
+  unfold accepted. cbn [c_content with_content c_kind]. rewrite Hk, is_xr_clip, (check2d_none_np _ _ E).
+  unfold clip_arr. rewrite check2d_with_data, check2d_with_content, E. reflexivity.
+Qed.
+
+Lemma photon_set3d_accepted c a :
+  is_photon (c_kind c) = true -> accepted tb c = true -> accepted tb (fst (photon_set3d tb c a)) = true.
+Proof.
+  intros Hk Hc. rewrite photon_set3d_eq. destruct (photon_check3d tb c a) eqn:E; simpl; [exact Hc|].
+  unfold accepted. cbn [c_content with_content c_kind]. rewrite Hk, is_xr_clip, (check3d_none_xr _ _ E).
+  unfold clip_arr. rewrite check3d_with_data, check3d_with_content, E. reflexivity.
+Qed.
+
+(* numpy / xarray in-place addition keeps container type, element type and shape *)
+Lemma np_iadd_with_data cur a cur' :
+  np_iadd tb cur a = inl cur' -> exists d, cur' = with_data cur d.
+Proof.
+  unfold np_iadd.
   destruct (negb (iadd_ok tb (a_dt cur) (a_dt a))); [discriminate|].
-  intro H. injection H as <-. unfold arr_ok, with_data in *.
-  cbn [a_dt a_xr a_shape a_data is_photon ckind_eqb] in *. rewrite Exc in *.
-  apply andb_prop in Hcur. destruct Hcur as [Hcur Hnn]. apply andb_prop in Hcur. destruct Hcur as [Hdt Hsh].
-  rewrite Hdt, Hsh. cbn [andb].
-  apply all_nonneg_zip_add; [apply spec_allowed_photon_float; exact Hdt | exact Hnn | exact Ha].
+  destruct (negb (broadcastable (a_shape a) (a_shape cur))); [discriminate|].
+  intro H. injection H as <-. eexists. reflexivity.
+Qed.
+
+Lemma xr_iadd_with_data cur a cur' :
+  xr_iadd tb cur a = Some (inl cur') -> exists d, cur' = with_data cur d.
+Proof.
+  unfold xr_iadd.
+  destruct (a_xr cur) as [xc|]; [|discriminate]. destruct (a_xr a) as [xa|]; [|discriminate].
+  destruct (dims_wyx cur && has_wl_coord cur && Nat.eqb (length (a_shape cur)) 3
+            && Nat.eqb (length (x_dims xa)) (length (a_shape a)) && nodup_nat (x_dims xa)); [|discriminate].
+  destruct (match x_wl xa with Some _ => negb (opt_eqb zlist_eqb (x_wl xc) (x_wl xa)) | None => false end); [discriminate|].
+  destruct (negb (xr_sizes_compat cur a)); [discriminate|].
+  destruct (negb (forallb (fun n => Nat.ltb n 3) (x_dims xa))); [discriminate|].
+  destruct (negb (iadd_ok tb (a_dt cur) (a_dt a))); [discriminate|].
+  intro H. injection H as <-. eexists. reflexivity.
+Qed.
+
+Lemma is_xr_with_data a d : is_xr (with_data a d) = is_xr a.
+Proof. reflexivity. Qed.
+
+Lemma is_xr_of_a_xr a : is_xr a = match a_xr a with Some _ => true | None => false end.
+Proof. reflexivity. Qed.
+
+(* `photon += a` / `photon + a` with the tail that goes through the setters: the result is either the
+   unchanged state (an exception before anything was stored) or the clipped, validated sum *)
+Lemma photon_iadd_setters_cases c a :
+  is_photon (c_kind c) = true -> accepted tb c = true ->
+  (fst (photon_iadd tb IAddSetters c a) = c)
+  \/ (exists x, fst (photon_iadd tb IAddSetters c a) = with_content c (Some (clip_arr x))
+                /\ ((is_xr x = false /\ photon_check2d tb c x = None) \/ (is_xr x = true /\ photon_check3d tb c x = None))).
+Proof.
+  intros Hk Hacc. unfold photon_iadd. destruct (c_content c) as [cur|] eqn:Ec.
+  - unfold accepted in Hacc. rewrite Ec, Hk in Hacc. rewrite is_xr_of_a_xr in Hacc.
+    destruct (a_xr cur) as [xc|] eqn:Exc; destruct (a_xr a) as [xa|] eqn:Exa; try (left; reflexivity).
+    + destruct (xr_iadd tb cur a) as [[cur'|e]|] eqn:E; try (left; reflexivity).
+      destruct (xr_iadd_with_data _ _ _ E) as [d ->].
+      assert (Hchk : photon_check3d tb c (with_data cur d) = None).
+      { rewrite check3d_with_data. destruct (photon_check3d tb c cur); [discriminate|reflexivity]. }
+      rewrite photon_set3d_eq, check3d_with_content, Hchk. simpl. right.
+      exists (with_data cur d). split; [reflexivity|]. right. split; [|exact Hchk].
+      rewrite is_xr_with_data, is_xr_of_a_xr, Exc. reflexivity.
+    + destruct (np_iadd tb cur a) as [cur'|e] eqn:E; try (left; reflexivity).
+      destruct (np_iadd_with_data _ _ _ E) as [d ->].
+      assert (Hchk : photon_check2d tb c (with_data cur d) = None).
+      { rewrite check2d_with_data. destruct (photon_check2d tb c cur); [discriminate|reflexivity]. }
+      rewrite photon_set2d_eq, check2d_with_content, Hchk. simpl. right.
+      exists (with_data cur d). split; [reflexivity|]. left. split; [|exact Hchk].
+      rewrite is_xr_with_data, is_xr_of_a_xr, Exc. reflexivity.
+  - destruct (is_xr a) eqn:Ex.
+    + rewrite photon_set3d_eq. destruct (photon_check3d tb c a) eqn:E; simpl; [left; reflexivity|].
+      right. exists a. split; [reflexivity|]. right. auto.
+    + rewrite photon_set2d_eq. destruct (photon_check2d tb c a) eqn:E; simpl; [left; reflexivity|].
+      right. exists a. split; [reflexivity|]. left. auto.
 Qed.
 
 Lemma photon_iadd_inv c a :
-  c_kind c = Photon -> Inv c ->
-  match c_content c with
-  | None => arr_ok Photon (c_rows c) (c_cols c) a = true
-  | Some _ => all_nonneg (a_data a) = true
-  end ->
-  Inv (fst (photon_iadd tb c a)).
+  c_kind c = Photon -> Inv c -> accepted tb c = true -> Inv (fst (photon_iadd tb IAddSetters c a)).
 Proof.
-  intros Hk Hc Hop. unfold photon_iadd. destruct (c_content c) as [cur|] eqn:Ec.
-  - assert (Hcur : arr_ok Photon (c_rows c) (c_cols c) cur = true).
-    { unfold Inv, inv_b in Hc. rewrite Ec, Hk in Hc. exact Hc. }
-    destruct (a_xr cur) eqn:Exc; destruct (a_xr a) eqn:Exa; try exact Hc.
-    + destruct (xr_iadd tb cur a) as [[cur'|e]|] eqn:E; simpl; try exact Hc.
-      unfold Inv. rewrite inv_with_content, Hk. eapply xr_iadd_photon_ok; eauto.
-    + destruct (np_iadd tb cur a) as [cur'|e] eqn:E; simpl; try exact Hc.
-      unfold Inv. rewrite inv_with_content, Hk. eapply np_iadd_photon_ok; eauto.
-  - simpl. unfold Inv. rewrite inv_with_content, Hk. exact Hop.
+  intros Hk Hc Hacc.
+  assert (Hk' : is_photon (c_kind c) = true) by (rewrite Hk; reflexivity).
+  destruct (photon_iadd_setters_cases c a Hk' Hacc) as [-> | [x [-> [[_ Hx]|[_ Hx]]]]]; [exact Hc| |];
+    unfold Inv; rewrite inv_with_content, Hk; [apply check2d_none_ok | apply check3d_none_ok]; exact Hx.
 Qed.
 
-(* ---------------------------------------------------------------- one step, any sequence *)
-
-Theorem step_inv c o : Inv c -> offending c o = false -> Inv (fst (step tb c o)).
+Lemma photon_iadd_accepted c a :
+  is_photon (c_kind c) = true -> accepted tb c = true -> accepted tb (fst (photon_iadd tb IAddSetters c a)) = true.
 Proof.
-  intros Hc Hoff. destruct (is_photon (c_kind c)) eqn:Hk.
-  - (* Photon *)
-    assert (Hk' : c_kind c = Photon) by (destruct (c_kind c); simpl in Hk; try discriminate; reflexivity).
-    destruct o; simpl; rewrite ?Hk; try exact Hc.
-    + apply photon_set2d_inv; assumption.
-    + apply photon_set3d_inv; assumption.
-    + apply photon_iadd_inv; try assumption. unfold offending in Hoff. rewrite Hk' in Hoff.
-      destruct (c_content c); apply negb_false_iff in Hoff; exact Hoff.
-    + apply photon_iadd_inv; try assumption. unfold offending in Hoff. rewrite Hk' in Hoff.
-      destruct (c_content c); apply negb_false_iff in Hoff; exact Hoff.
-    + rewrite Hk'. reflexivity.
-    + unfold det_assign. destruct (det_setter tb (c_kind c)); simpl.
-      * destruct (read2d o) eqn:Er; simpl; try exact Hc. rewrite Hk. apply photon_set2d_inv; assumption.
-      * unfold offending in Hoff. rewrite Hk' in Hoff. apply negb_false_iff in Hoff. exact Hoff.
-      * exact Hc.
-    + rewrite Hk'. reflexivity.
-  - (* ArrayBase classes *)
-    destruct o; simpl; rewrite ?Hk; try exact Hc.
-    + apply base_set_inv; assumption.
-    + destruct o as [a|]; [apply base_set_inv; assumption | reflexivity].
-    + apply base_iadd_inv; assumption.
-    + apply base_iadd_inv; assumption.
-    + destruct (c_kind c) eqn:Ek; try reflexivity. simpl. unfold Inv. rewrite inv_with_content, Ek. apply arr_ok_zeros.
-    + unfold det_assign. destruct (det_setter tb (c_kind c)) eqn:Es; simpl.
-      * destruct (read2d o) eqn:Er; simpl; try exact Hc. rewrite Hk. apply base_set_inv; assumption.
-      * exfalso. eapply base_setter_not_raw; eauto.
-      * exact Hc.
-    + destruct (c_kind c) eqn:Ek; try reflexivity; try discriminate.
-      * destruct reset; simpl; [|exact Hc]. unfold Inv. rewrite inv_with_content, Ek. apply arr_ok_zeros.
-      * destruct (c_content c) as [cur|] eqn:Ec; [|exact Hc]. destruct reset; [|exact Hc].
-        rewrite validate_base_with_data.
-        assert (Hok : Inv (with_content c (Some (with_data cur (map cell_mul0 (a_data cur)))))).
-        { unfold Inv. rewrite inv_with_content, arr_ok_base_with_data by (rewrite Ek; reflexivity).
-          unfold Inv, inv_b in Hc. rewrite Ec in Hc. exact Hc. }
-        destruct (validate_base tb c cur); exact Hok.
+  intros Hk Hacc.
+  destruct (photon_iadd_setters_cases c a Hk Hacc) as [-> | [x [-> [[Hx Hchk]|[Hx Hchk]]]]]; [exact Hacc| |];
+    unfold accepted; cbn [c_content with_content c_kind]; rewrite Hk, is_xr_clip, Hx; unfold clip_arr.
+  - rewrite check2d_with_data, check2d_with_content, Hchk. reflexivity.
+  - rewrite check3d_with_data, check3d_with_content, Hchk. reflexivity.
 Qed.
 
-Theorem run_inv_partial ops : forall c, Inv c -> no_offending tb c ops = true -> Inv (run tb c ops).
+(* detector.photon = o *)
+Lemma det_assign_photon_inv c o :
+  c_kind c = Photon -> Inv c -> Inv (fst (det_assign tb c o)).
 Proof.
-  induction ops as [|o t IH]; intros c Hc Hno; [exact Hc|].
-  simpl in Hno. apply andb_prop in Hno. destruct Hno as [H1 H2]. apply negb_true_iff in H1.
-  unfold run. simpl. apply IH; [apply step_inv; assumption | exact H2].
+  intros Hk Hc. assert (Hk' : is_photon (c_kind c) = true) by (rewrite Hk; reflexivity).
+  unfold det_assign. destruct (det_setter tb (c_kind c)) eqn:Es; simpl.
+  - destruct (read2d tb o) eqn:Er; simpl; try exact Hc. rewrite Hk'. apply photon_set2d_inv; assumption.
+  - exfalso. eapply setter_not_raw; eauto.
+  - rewrite Hk'. simpl. destruct (c_content o) as [a|]; [|reflexivity].
+    destruct (is_xr a); [|apply photon_set2d_inv; assumption].
+    destruct (is_photon (c_kind o)); [apply photon_set3d_inv; assumption | exact Hc].
+  - exact Hc.
 Qed.
 
-(* every intermediate state, not only the last one *)
-Theorem states_inv_partial ops : forall c, Inv c -> no_offending tb c ops = true -> Forall Inv (states tb c ops).
-Proof.
-  induction ops as [|o t IH]; intros c Hc Hno; [constructor|].
-  simpl in Hno. apply andb_prop in Hno. destruct Hno as [H1 H2]. apply negb_true_iff in H1.
-  simpl. constructor; [apply step_inv; assumption|]. apply IH; [apply step_inv; assumption | exact H2].
-Qed.
-
-Lemma step_kind c o : c_kind (fst (step tb c o)) = c_kind c /\ c_rows (fst (step tb c o)) = c_rows c
-                      /\ c_cols (fst (step tb c o)) = c_cols c.
-Proof.
-  destruct o; simpl;
-    unfold photon_set2d, photon_set3d, base_set, base_iadd, photon_iadd, det_assign, base_set, photon_set2d;
-    repeat match goal with
-           | |- context [match ?x with _ => _ end] => destruct x eqn:?
-           | |- context [if ?x then _ else _] => destruct x eqn:?
-           end; simpl; auto.
-Qed.
-
-Lemma offending_base c o : is_photon (c_kind c) = false -> offending c o = false.
-Proof. intro Hk. unfold offending. destruct (c_kind c); simpl in Hk; try discriminate; destruct o; reflexivity. Qed.
-
-Lemma no_offending_base ops : forall c, is_photon (c_kind c) = false -> no_offending tb c ops = true.
-Proof.
-  induction ops as [|o t IH]; intros c Hk; [reflexivity|]. simpl. rewrite offending_base by exact Hk. simpl.
-  apply IH. destruct (step_kind c o) as [E _]. rewrite E. exact Hk.
-Qed.
-
-(* full invariant for pixel, signal, image, phase: ALL operation sequences *)
-Theorem run_inv_base ops c : c_kind c <> Photon -> Inv c -> Forall Inv (states tb c ops) /\ Inv (run tb c ops).
+Lemma det_assign_photon_accepted c o :
+  is_photon (c_kind c) = true -> accepted tb c = true -> accepted tb (fst (det_assign tb c o)) = true.
 Proof.
   intros Hk Hc.
-  assert (Hp : is_photon (c_kind c) = false) by (destruct (c_kind c); try reflexivity; congruence).
-  split; [apply states_inv_partial | apply run_inv_partial]; auto using no_offending_base.
+  unfold det_assign. destruct (det_setter tb (c_kind c)) eqn:Es; simpl.
+  - destruct (read2d tb o) eqn:Er; simpl; try exact Hc. rewrite Hk. apply photon_set2d_accepted; assumption.
+  - exfalso. eapply setter_not_raw; eauto.
+  - rewrite Hk. simpl. destruct (c_content o) as [a|]; [|reflexivity].
+    destruct (is_xr a); [|apply photon_set2d_accepted; assumption].
+    destruct (is_photon (c_kind o)); [apply photon_set3d_accepted; assumption | exact Hc].
+  - exact Hc.
 Qed.
 
-(* ---------------------------------------------------------------- a failed operation changes nothing *)
+(* ---------------------------------------------------------------- the stored array passes its setter again *)
 
-(* the stored array of an ArrayBase container passes its own validation (what `self.array += x` relies on) *)
-Definition revalidates (c : container) : Prop :=
-  is_photon (c_kind c) = false -> forall a, c_content c = Some a -> validate_base tb c a = None.
-
-Lemma base_set_raise c a c' e : base_set tb c a = (c', Raise e) -> c' = c.
-Proof. unfold base_set. destruct (validate_base tb c a); intro H; inversion H; reflexivity. Qed.
-
-Lemma photon_set2d_raise c a c' e : photon_set2d tb c a = (c', Raise e) -> c' = c.
-Proof. unfold photon_set2d. destruct (first_fail _); intro H; inversion H; reflexivity. Qed.
-
-Lemma photon_set3d_raise c a c' e : photon_set3d tb c a = (c', Raise e) -> c' = c.
-Proof. unfold photon_set3d. destruct (first_fail _); intro H; inversion H; reflexivity. Qed.
-
-Lemma photon_iadd_raise c a c' e : photon_iadd tb c a = (c', Raise e) -> c' = c.
+Lemma accepted_base c :
+  is_photon (c_kind c) = false -> accepted tb c = true -> forall a, c_content c = Some a -> validate_base tb c a = None.
 Proof.
-  unfold photon_iadd. destruct (c_content c) as [cur|]; [|intro H; inversion H].
-  destruct (a_xr cur); destruct (a_xr a); try (intro H; inversion H; reflexivity).
-  - destruct (xr_iadd tb cur a) as [[?|?]|]; intro H; inversion H; reflexivity.
-  - destruct (np_iadd tb cur a); intro H; inversion H; reflexivity.
+  intros Hk H a E. unfold accepted in H. rewrite E, Hk in H. destruct (validate_base tb c a); [discriminate|reflexivity].
 Qed.
 
-Lemma base_iadd_raise c a c' e :
-  is_photon (c_kind c) = false -> revalidates c -> base_iadd tb c a = (c', Raise e) -> c' = c.
+Lemma accepted_set c a :
+  is_photon (c_kind c) = false -> validate_base tb c a = None -> accepted tb (with_content c (Some a)) = true.
+Proof. intros Hk Hv. unfold accepted. cbn [c_content with_content c_kind]. rewrite Hk, validate_base_with_content, Hv. reflexivity. Qed.
+
+Lemma accepted_none c : accepted tb (with_content c None) = true.
+Proof. reflexivity. Qed.
+
+Lemma base_set_accepted c a :
+  is_photon (c_kind c) = false -> accepted tb c = true -> accepted tb (fst (base_set tb c a)) = true.
 Proof.
-  intros Hk Hr. unfold base_iadd. destruct (c_content c) as [cur|] eqn:Ec; [|apply base_set_raise].
-  destruct (is_xr a || is_xr cur); [intro H; inversion H|].
-  destruct (np_iadd tb cur a) as [cur'|e'] eqn:E; [|intro H; inversion H; reflexivity].
-  assert (Hv : validate_base tb c cur' = None).
-  { unfold np_iadd in E. destruct (negb (iadd_ok tb (a_dt cur) (a_dt a))); [discriminate|].
-    destruct (negb (broadcastable (a_shape a) (a_shape cur))); [discriminate|]. injection E as <-.
-    rewrite validate_base_with_data. apply Hr; assumption. }
-  rewrite Hv. intro H; inversion H.
+  intros Hk Hr. unfold base_set. destruct (validate_base tb c a) eqn:E; simpl; [exact Hr|].
+  apply accepted_set; assumption.
 Qed.
 
-Theorem step_raise_preserves c o c' e : revalidates c -> step tb c o = (c', Raise e) -> c' = c.
+Lemma base_iadd_accepted k c a :
+  is_photon (c_kind c) = false -> accepted tb c = true -> accepted tb (fst (base_iadd tb k c a)) = true.
 Proof.
-  intros Hr. destruct (is_photon (c_kind c)) eqn:Hk.
-  - destruct o as [a|a|oa|a|a| | | |o'|o'|o'|reset]; simpl; rewrite ?Hk.
-    + apply photon_set2d_raise.
-    + apply photon_set3d_raise.
-    + intro H; inversion H.
-    + apply photon_iadd_raise.
-    + apply photon_iadd_raise.
-    + destruct (c_kind c); intro H; inversion H.
-    + intro H; inversion H; reflexivity.
-    + intro H; inversion H; reflexivity.
-    + intro H; inversion H; reflexivity.
-    + intro H; inversion H; reflexivity.
-    + unfold det_assign. destruct (det_setter tb (c_kind c)); try (intro H; inversion H; reflexivity).
-      destruct (read2d o'); try (intro H; inversion H; reflexivity). rewrite Hk. apply photon_set2d_raise.
-    + destruct (c_kind c); try (intro H; inversion H; fail); simpl in Hk; discriminate.
-  - destruct o as [a|a|oa|a|a| | | |o'|o'|o'|reset]; simpl; rewrite ?Hk.
-    + apply base_set_raise.
-    + intro H; inversion H.
-    + destruct oa; [apply base_set_raise | intro H; inversion H].
-    + apply base_iadd_raise; assumption.
-    + apply base_iadd_raise; assumption.
-    + destruct (c_kind c); intro H; inversion H.
-    + intro H; inversion H; reflexivity.
-    + intro H; inversion H.
-    + intro H; inversion H; reflexivity.
-    + intro H; inversion H; reflexivity.
-    + unfold det_assign. destruct (det_setter tb (c_kind c)); try (intro H; inversion H; reflexivity).
-      destruct (read2d o'); try (intro H; inversion H; reflexivity). rewrite Hk. apply base_set_raise.
-    + destruct (c_kind c) eqn:Ek; try (intro H; inversion H; fail).
-      * destruct reset; intro H; inversion H.
-      * destruct (c_content c) as [cur|] eqn:Ec; [|intro H; inversion H]. destruct reset; [|intro H; inversion H].
-        assert (Hk2 : is_photon (c_kind c) = false) by (rewrite Ek; reflexivity).
-        rewrite validate_base_with_data, (Hr Hk2 cur Ec). intro H; inversion H.
+  intros Hk Hr. unfold base_iadd. destruct (c_content c) as [cur|] eqn:Ec; [|apply base_set_accepted; assumption].
+  destruct (is_xr cur); [exact Hr|].
+  destruct (np_iadd tb cur (as_numpy a)) as [cur'|e'] eqn:E; [|exact Hr].
+  destruct (np_iadd_with_data _ _ _ E) as [d ->].
+  destruct (validate_base tb c (iadd_result (with_data cur d) a)) eqn:Ev; simpl.
+  - destruct k; [|exact Hr]. apply accepted_set; [exact Hk|]. rewrite validate_base_with_data. eapply accepted_base; eauto.
+  - apply accepted_set; assumption.
 Qed.
 
 Lemma validate_zeros c : c_kind c = Pixel -> validate_base tb c (zeros_f64 (c_rows c) (c_cols c)) = None.
@@ -457,84 +485,333 @@ Proof.
   cbn [zeros_f64 a_dt a_xr a_shape]. rewrite Hz, shape_eqb_refl. reflexivity.
 Qed.
 
-Lemma revalidates_set c a : validate_base tb c a = None -> revalidates (with_content c (Some a)).
-Proof. intros Hv _ a' E. simpl in E. injection E as <-. exact Hv. Qed.
+(* ---------------------------------------------------------------- resets *)
 
-Lemma revalidates_none c : revalidates (with_content c None).
-Proof. intros _ a E. discriminate. Qed.
-
-Lemma base_set_revalidates c a : revalidates c -> revalidates (fst (base_set tb c a)).
+Lemma empty_kinds :
+  empty_of tb Photon = EmptyNone /\ empty_of tb Signal = EmptyNone /\ empty_of tb Image = EmptyNone
+  /\ empty_of tb Phase = EmptyNone
+  /\ d_empty tb Photon = DAlways /\ d_empty tb Signal = DAlways /\ d_empty tb Image = DAlways
+  /\ d_empty tb Pixel <> DNever /\ mkid_phase_zero tb = true.
 Proof.
-  intro Hr. unfold base_set. destruct (validate_base tb c a) eqn:E; simpl; [exact Hr|].
-  apply revalidates_set. exact E.
+  destruct tb_parts as [_ [_ [_ [_ [_ [_ [_ [H _]]]]]]]]. unfold resets_ok in H. simpl in H.
+  destruct (empty_of tb Photon), (empty_of tb Signal), (empty_of tb Image), (empty_of tb Phase); try discriminate.
+  destruct (d_empty tb Photon), (d_empty tb Signal), (d_empty tb Image); try discriminate.
+  destruct (mkid_phase_zero tb); [|destruct (d_empty tb Pixel); discriminate].
+  destruct (d_empty tb Pixel); try discriminate; repeat split; congruence.
 Qed.
 
-Lemma step_revalidates c o : revalidates c -> revalidates (fst (step tb c o)).
+Lemma do_empty_cases c :
+  do_empty tb c = with_content c None
+  \/ (c_kind c = Pixel /\ do_empty tb c = with_content c (Some (zeros_f64 (c_rows c) (c_cols c)))).
 Proof.
-  intro Hr. destruct (is_photon (c_kind c)) eqn:Hk.
-  - intro Hk2. destruct (step_kind c o) as [E _]. rewrite E in Hk2. congruence.
-  - destruct o; simpl; rewrite ?Hk; try exact Hr.
-    + apply base_set_revalidates; exact Hr.
-    + destruct o; [apply base_set_revalidates; exact Hr | apply revalidates_none].
-    + unfold base_iadd. destruct (c_content c) as [cur|] eqn:Ec; [|apply base_set_revalidates; exact Hr].
-      destruct (is_xr a || is_xr cur); [exact Hr|].
-      destruct (np_iadd tb cur a) as [cur'|e'] eqn:E; [|exact Hr].
-      assert (Hv : validate_base tb c cur' = None).
-      { unfold np_iadd in E. destruct (negb (iadd_ok tb (a_dt cur) (a_dt a))); [discriminate|].
-        destruct (negb (broadcastable (a_shape a) (a_shape cur))); [discriminate|]. injection E as <-.
-        rewrite validate_base_with_data. apply Hr; assumption. }
-      rewrite Hv. simpl. apply revalidates_set. exact Hv.
-    + unfold base_iadd. destruct (c_content c) as [cur|] eqn:Ec; [|apply base_set_revalidates; exact Hr].
-      destruct (is_xr a || is_xr cur); [exact Hr|].
-      destruct (np_iadd tb cur a) as [cur'|e'] eqn:E; [|exact Hr].
-      assert (Hv : validate_base tb c cur' = None).
-      { unfold np_iadd in E. destruct (negb (iadd_ok tb (a_dt cur) (a_dt a))); [discriminate|].
-        destruct (negb (broadcastable (a_shape a) (a_shape cur))); [discriminate|]. injection E as <-.
-        rewrite validate_base_with_data. apply Hr; assumption. }
-      rewrite Hv. simpl. apply revalidates_set. exact Hv.
-    + destruct (c_kind c) eqn:Ek; try apply revalidates_none. simpl. apply revalidates_set. apply validate_zeros. exact Ek.
-    + unfold det_assign. destruct (det_setter tb (c_kind c)) eqn:Es; simpl.
-      * destruct (read2d o); simpl; try exact Hr. rewrite Hk. apply base_set_revalidates; exact Hr.
-      * exfalso. eapply base_setter_not_raw; eauto.
-      * exact Hr.
-    + destruct (c_kind c) eqn:Ek; try apply revalidates_none; try discriminate.
-      * destruct reset; simpl; [|exact Hr]. apply revalidates_set. apply validate_zeros. exact Ek.
-      * destruct (c_content c) as [cur|] eqn:Ec; [|exact Hr]. destruct reset; [|exact Hr].
-        assert (Hk2 : is_photon (c_kind c) = false) by (rewrite Ek; reflexivity).
-        rewrite validate_base_with_data, (Hr Hk2 cur Ec). simpl. apply revalidates_set.
-        rewrite validate_base_with_data. apply Hr; assumption.
+  destruct empty_kinds as [E1 [E2 [E3 [E4 _]]]]. unfold do_empty.
+  destruct (c_kind c) eqn:Ek; rewrite ?E1, ?E2, ?E3, ?E4; auto.
+  destruct (empty_of tb Pixel); auto.
 Qed.
 
-Lemma run_revalidates ops : forall c, revalidates c -> revalidates (run tb c ops).
+Lemma do_empty_inv c : Inv (do_empty tb c).
 Proof.
-  induction ops as [|o t IH]; intros c Hr; [exact Hr|]. unfold run. simpl. apply IH. apply step_revalidates. exact Hr.
+  destruct (do_empty_cases c) as [-> | [Ek ->]]; [reflexivity|].
+  unfold Inv. rewrite inv_with_content, Ek. apply arr_ok_zeros.
+Qed.
+
+Lemma do_empty_accepted c : accepted tb (do_empty tb c) = true.
+Proof.
+  destruct (do_empty_cases c) as [-> | [Ek ->]]; [reflexivity|].
+  apply accepted_set; [rewrite Ek; reflexivity | apply validate_zeros; exact Ek].
+Qed.
+
+(* ---------------------------------------------------------------- one step, any sequence *)
+
+Lemma dempty_inv c reset : Inv c -> Inv (fst (step tb c (ODEmpty reset))).
+Proof.
+  intro Hc. simpl. destruct (c_kind c) eqn:Ek;
+    try (destruct (d_empty tb _); [apply do_empty_inv | destruct reset; [apply do_empty_inv | exact Hc] | exact Hc]).
+  destruct (c_content c) as [cur|] eqn:Ec; [|exact Hc]. destruct (reset && mkid_phase_zero tb); [|exact Hc].
+  rewrite validate_base_with_data.
+  assert (Hok : Inv (with_content c (Some (with_data cur (map cell_mul0 (a_data cur)))))).
+  { unfold Inv. rewrite inv_with_content, arr_ok_base_with_data by (rewrite Ek; reflexivity).
+    unfold Inv, inv_b in Hc. rewrite Ec in Hc. exact Hc. }
+  destruct (validate_base tb c cur); exact Hok.
+Qed.
+
+Theorem step_inv c o : Inv c -> accepted tb c = true -> Inv (fst (step tb c o)).
+Proof.
+  intros Hc Hacc. destruct iadd_kinds as [Ki Ka].
+  destruct o as [a|a|oa|a|a| | | |o'|o'|o'|reset|]; try exact Hc; try (apply dempty_inv; exact Hc);
+    try (apply do_empty_inv).
+  all: destruct (is_photon (c_kind c)) eqn:Hk; simpl; rewrite ?Hk, ?Ki, ?Ka; try exact Hc.
+  - apply photon_set2d_inv; [apply is_photon_kind|]; assumption.
+  - apply base_set_inv; assumption.
+  - apply photon_set3d_inv; [apply is_photon_kind|]; assumption.
+  - destruct oa as [a|]; [apply base_set_inv; assumption|].
+    destruct (upd_none tb (c_kind c)); [apply do_empty_inv | reflexivity].
+  - apply photon_iadd_inv; [apply is_photon_kind| |]; assumption.
+  - apply base_iadd_inv; assumption.
+  - apply photon_iadd_inv; [apply is_photon_kind| |]; assumption.
+  - apply base_iadd_inv; assumption.
+  - apply det_assign_photon_inv; [apply is_photon_kind|]; assumption.
+  - unfold det_assign. destruct (det_setter tb (c_kind c)) eqn:Es; simpl.
+    + destruct (read2d tb o') eqn:Er; simpl; try exact Hc. rewrite Hk. apply base_set_inv; assumption.
+    + exfalso. eapply setter_not_raw; eauto.
+    + rewrite Hk. exact Hc.
+    + exact Hc.
+Qed.
+
+Lemma step_kind c o : c_kind (fst (step tb c o)) = c_kind c /\ c_rows (fst (step tb c o)) = c_rows c
+                      /\ c_cols (fst (step tb c o)) = c_cols c.
+Proof.
+  destruct o; simpl;
+    unfold photon_iadd, det_assign, base_iadd, photon_set2d, photon_set3d, base_set, do_empty;
+    repeat match goal with
+           | |- context [match ?x with _ => _ end] => destruct x eqn:?
+           | |- context [if ?x then _ else _] => destruct x eqn:?
+           end; simpl; auto.
+Qed.
+
+Lemma dempty_accepted c reset : accepted tb c = true -> accepted tb (fst (step tb c (ODEmpty reset))) = true.
+Proof.
+  intro Hr. simpl. destruct (c_kind c) eqn:Ek;
+    try (destruct (d_empty tb _); [apply do_empty_accepted | destruct reset; [apply do_empty_accepted | exact Hr] | exact Hr]).
+  destruct (c_content c) as [cur|] eqn:Ec; [|exact Hr]. destruct (reset && mkid_phase_zero tb); [|exact Hr].
+  assert (Hk2 : is_photon (c_kind c) = false) by (rewrite Ek; reflexivity).
+  rewrite validate_base_with_data, (accepted_base c Hk2 Hr cur Ec). simpl. apply accepted_set; [exact Hk2|].
+  rewrite validate_base_with_data. eapply accepted_base; eauto.
+Qed.
+
+Theorem step_accepted c o : accepted tb c = true -> accepted tb (fst (step tb c o)) = true.
+Proof.
+  intros Hr. destruct iadd_kinds as [Ki Ka].
+  destruct o as [a|a|oa|a|a| | | |o'|o'|o'|reset|]; try exact Hr; try (apply dempty_accepted; exact Hr);
+    try (apply do_empty_accepted).
+  all: destruct (is_photon (c_kind c)) eqn:Hk; simpl; rewrite ?Hk, ?Ki, ?Ka; try exact Hr.
+  - apply photon_set2d_accepted; assumption.
+  - apply base_set_accepted; assumption.
+  - apply photon_set3d_accepted; assumption.
+  - destruct oa as [a|]; [apply base_set_accepted; assumption|].
+    destruct (upd_none tb (c_kind c)); [apply do_empty_accepted | apply accepted_none].
+  - apply photon_iadd_accepted; assumption.
+  - apply base_iadd_accepted; assumption.
+  - apply photon_iadd_accepted; assumption.
+  - apply base_iadd_accepted; assumption.
+  - apply det_assign_photon_accepted; assumption.
+  - unfold det_assign. destruct (det_setter tb (c_kind c)) eqn:Es; simpl.
+    + destruct (read2d tb o'); simpl; try exact Hr. rewrite Hk. apply base_set_accepted; assumption.
+    + exfalso. eapply setter_not_raw; eauto.
+    + rewrite Hk. exact Hr.
+    + exact Hr.
+Qed.
+
+Lemma run_cons c o t : run tb c (o :: t) = run tb (fst (step tb c o)) t.
+Proof. reflexivity. Qed.
+
+Theorem run_accepted ops : forall c, accepted tb c = true -> accepted tb (run tb c ops) = true.
+Proof.
+  induction ops as [|o t IH]; intros c Hr; [exact Hr|]. rewrite run_cons. apply IH. apply step_accepted. exact Hr.
+Qed.
+
+(* the invariant, for ALL operation sequences: every intermediate state and the final state *)
+Theorem run_inv ops : forall c, Inv c -> accepted tb c = true -> Inv (run tb c ops).
+Proof.
+  induction ops as [|o t IH]; intros c Hc Hr; [exact Hc|].
+  rewrite run_cons. apply IH; [apply step_inv | apply step_accepted]; assumption.
+Qed.
+
+Theorem states_inv ops : forall c, Inv c -> accepted tb c = true -> Forall Inv (states tb c ops).
+Proof.
+  induction ops as [|o t IH]; intros c Hc Hr; [constructor|].
+  simpl. constructor; [apply step_inv; assumption|]. apply IH; [apply step_inv | apply step_accepted]; assumption.
+Qed.
+
+Lemma accepted_empty k r c : accepted tb (empty_container k r c) = true.
+Proof. reflexivity. Qed.
+
+Lemma inv_empty k r c : Inv (empty_container k r c).
+Proof. reflexivity. Qed.
+
+(* ---------------------------------------------------------------- a failed operation changes nothing *)
+
+Lemma base_set_raise c a c' e : base_set tb c a = (c', Raise e) -> c' = c.
+Proof. unfold base_set. destruct (validate_base tb c a); intro H; inversion H; reflexivity. Qed.
+
+Lemma photon_set2d_raise c a c' e : photon_set2d tb c a = (c', Raise e) -> c' = c.
+Proof. unfold photon_set2d. destruct (photon_check2d tb c a); intro H; inversion H; reflexivity. Qed.
+
+Lemma photon_set3d_raise c a c' e : photon_set3d tb c a = (c', Raise e) -> c' = c.
+Proof. unfold photon_set3d. destruct (photon_check3d tb c a); intro H; inversion H; reflexivity. Qed.
+
+Lemma photon_iadd_raise c a c' e :
+  is_photon (c_kind c) = true -> accepted tb c = true ->
+  photon_iadd tb IAddSetters c a = (c', Raise e) -> c' = c.
+Proof.
+  intros Hk Hacc. unfold photon_iadd. destruct (c_content c) as [cur|] eqn:Ec.
+  - unfold accepted in Hacc. rewrite Ec, Hk in Hacc. rewrite is_xr_of_a_xr in Hacc.
+    destruct (a_xr cur) as [xc|] eqn:Exc; destruct (a_xr a) as [xa|] eqn:Exa; try (intro H; inversion H; reflexivity).
+    + destruct (xr_iadd tb cur a) as [[cur'|e']|] eqn:E; try (intro H; inversion H; reflexivity).
+      destruct (xr_iadd_with_data _ _ _ E) as [d ->].
+      rewrite photon_set3d_eq, check3d_with_content, check3d_with_data.
+      destruct (photon_check3d tb c cur); [discriminate|]. intro H; inversion H.
+    + destruct (np_iadd tb cur a) as [cur'|e'] eqn:E; try (intro H; inversion H; reflexivity).
+      destruct (np_iadd_with_data _ _ _ E) as [d ->].
+      rewrite photon_set2d_eq, check2d_with_content, check2d_with_data.
+      destruct (photon_check2d tb c cur); [discriminate|]. intro H; inversion H.
+  - destruct (is_xr a); [apply photon_set3d_raise | apply photon_set2d_raise].
+Qed.
+
+Lemma base_iadd_raise c a c' e :
+  base_iadd tb BIOnCopy c a = (c', Raise e) -> c' = c.
+Proof.
+  unfold base_iadd. destruct (c_content c) as [cur|] eqn:Ec; [|apply base_set_raise].
+  destruct (is_xr cur); [intro H; inversion H|].
+  destruct (np_iadd tb cur (as_numpy a)) as [cur'|e'] eqn:E; [|intro H; inversion H; reflexivity].
+  destruct (validate_base tb c (iadd_result cur' a)); intro H; inversion H; reflexivity.
+Qed.
+
+Theorem step_raise_preserves c o c' e : accepted tb c = true -> step tb c o = (c', Raise e) -> c' = c.
+Proof.
+  intros Hr. destruct iadd_kinds as [Ki Ka]. destruct base_iadd_kinds as [Bi Ba].
+  destruct (is_photon (c_kind c)) eqn:Hk.
+  - destruct o as [a|a|oa|a|a| | | |o'|o'|o'|reset|]; simpl; rewrite ?Hk, ?Ki, ?Ka.
+    + apply photon_set2d_raise.
+    + apply photon_set3d_raise.
+    + intro H; inversion H.
+    + apply photon_iadd_raise; assumption.
+    + apply photon_iadd_raise; assumption.
+    + intro H; inversion H.
+    + intro H; inversion H; reflexivity.
+    + intro H; inversion H; reflexivity.
+    + intro H; inversion H; reflexivity.
+    + intro H; inversion H; reflexivity.
+    + unfold det_assign. destruct (det_setter tb (c_kind c)); try (intro H; inversion H; reflexivity).
+      * destruct (read2d tb o'); try (intro H; inversion H; reflexivity). rewrite Hk. apply photon_set2d_raise.
+      * rewrite Hk. simpl. destruct (c_content o') as [a|]; [|intro H; inversion H].
+        destruct (is_xr a); [|apply photon_set2d_raise].
+        destruct (is_photon (c_kind o')); [apply photon_set3d_raise | intro H; inversion H; reflexivity].
+    + rewrite (is_photon_kind _ Hk). destruct (d_empty tb Photon); [|destruct reset|]; intro H; inversion H.
+    + intro H; inversion H; reflexivity.
+  - destruct o as [a|a|oa|a|a| | | |o'|o'|o'|reset|]; simpl; rewrite ?Hk.
+    + apply base_set_raise.
+    + intro H; inversion H.
+    + destruct oa; [apply base_set_raise | destruct (upd_none tb (c_kind c)); intro H; inversion H].
+    + rewrite Bi. apply base_iadd_raise.
+    + rewrite Ba. apply base_iadd_raise.
+    + intro H; inversion H.
+    + intro H; inversion H; reflexivity.
+    + intro H; inversion H.
+    + intro H; inversion H; reflexivity.
+    + intro H; inversion H; reflexivity.
+    + unfold det_assign. destruct (det_setter tb (c_kind c)); try (intro H; inversion H; reflexivity).
+      * destruct (read2d tb o'); try (intro H; inversion H; reflexivity). rewrite Hk. apply base_set_raise.
+      * rewrite Hk. simpl. intro H; inversion H.
+    + destruct (c_kind c) eqn:Ek;
+        try (destruct (d_empty tb _); [|destruct reset|]; intro H; inversion H; fail).
+      destruct (c_content c) as [cur|] eqn:Ec; [|intro H; inversion H].
+      destruct (reset && mkid_phase_zero tb); [|intro H; inversion H].
+      assert (Hk2 : is_photon (c_kind c) = false) by (rewrite Ek; reflexivity).
+      rewrite validate_base_with_data, (accepted_base c Hk2 Hr cur Ec). intro H; inversion H.
+    + intro H; inversion H; reflexivity.
 Qed.
 
 (* after ANY history that started with an empty container, an operation that raises changes nothing *)
 Theorem failed_op_preserves c0 ops o c' e :
   c_content c0 = None -> step tb (run tb c0 ops) o = (c', Raise e) -> c' = run tb c0 ops.
 Proof.
-  intros H0. apply step_raise_preserves. apply run_revalidates. intros _ a E. congruence.
+  intros H0. apply step_raise_preserves. apply run_accepted. unfold accepted. rewrite H0. reflexivity.
 Qed.
 
 (* ---------------------------------------------------------------- reads *)
 
-Theorem read_empty_raises c : c_content c = None -> step tb c ORead = (c, Raise ValueError).
-Proof. intro H. simpl. unfold read2d. rewrite H. reflexivity. Qed.
+Lemma read_guards :
+  (exists e, rd_base tb = Some e) /\ (exists e, rd_ph2_none tb = Some e) /\ (exists e, rd_ph3_none tb = Some e)
+  /\ (exists e, aa_base tb = Some e) /\ (exists e, aa_ph_none tb = Some e).
+Proof.
+  destruct tb_parts as [_ [_ [_ [_ [_ [_ [H _]]]]]]]. unfold reads_guarded in H.
+  repeat (apply andb_prop in H; destruct H as [H ?]). unfold guard_present in *.
+  repeat split; match goal with |- exists e, ?g = Some e => destruct g; [eexists; reflexivity | discriminate] end.
+Qed.
+
+(* reading an empty container raises, whichever way it is read *)
+Theorem read_empty_raises c : c_content c = None -> exists e, step tb c ORead = (c, Raise e).
+Proof.
+  intro H. destruct read_guards as [[e1 G1] [[e2 G2] _]]. simpl. unfold read2d, content_none.
+  rewrite H, G1, G2. simpl. destruct (is_photon (c_kind c)); eexists; reflexivity.
+Qed.
 
 Theorem read3d_empty_raises c :
-  c_kind c = Photon -> c_content c = None -> step tb c ORead3D = (c, Raise ValueError).
-Proof. intros Hk H. simpl. rewrite Hk. simpl. unfold read3d. rewrite H. reflexivity. Qed.
+  c_kind c = Photon -> c_content c = None -> exists e, step tb c ORead3D = (c, Raise e).
+Proof.
+  intros Hk H. destruct read_guards as [_ [_ [[e3 G3] _]]]. simpl. rewrite Hk. simpl. unfold read3d, content_none.
+  rewrite H, G3. simpl. eexists; reflexivity.
+Qed.
+
+Theorem asarray_empty_raises c :
+  c_content c = None -> exists e, step tb c OAsArray = (c, Raise e).
+Proof.
+  intro H. destruct read_guards as [_ [_ [_ [[e4 G4] [e5 G5]]]]]. simpl. unfold asarray_res, content_none, content_np.
+  rewrite H, G4, G5. simpl. destruct (is_photon (c_kind c)); eexists; reflexivity.
+Qed.
+
+Lemma ret_content_arr c a : ret_content c = RetArr a -> c_content c = Some a.
+Proof. unfold ret_content. destruct (c_content c); intro H; inversion H; reflexivity. Qed.
+
+Lemma read2d_arr c a : read2d tb c = RetArr a -> c_content c = Some a.
+Proof. unfold read2d. destruct (if is_photon (c_kind c) then _ else _); [discriminate|]. apply ret_content_arr. Qed.
 
 (* a read never returns anything but the stored array, and never changes the state *)
 Theorem read_returns_content c c' a :
-  (step tb c ORead = (c', RetArr a) \/ step tb c ORead3D = (c', RetArr a)) -> c' = c /\ c_content c = Some a.
+  (step tb c ORead = (c', RetArr a) \/ step tb c ORead3D = (c', RetArr a) \/ step tb c OAsArray = (c', RetArr a)) ->
+  c' = c /\ c_content c = Some a.
 Proof.
-  intros [H|H]; simpl in H.
-  - inversion H. split; [reflexivity|]. apply read2d_arr_base. assumption.
+  intros [H|[H|H]]; simpl in H.
+  - inversion H. split; [reflexivity|]. apply read2d_arr. assumption.
   - destruct (is_photon (c_kind c)); [|discriminate]. injection H as Hc Hr. split; [symmetry; exact Hc|].
-    unfold read3d in Hr. destruct (c_content c) as [x|]; [|discriminate]. destruct (is_xr x); [|discriminate].
-    injection Hr as ->. reflexivity.
+    unfold read3d in Hr. destruct (first_fail _); [discriminate|]. apply ret_content_arr. exact Hr.
+  - injection H as Hc Hr. split; [symmetry; exact Hc|]. unfold asarray_res in Hr.
+    destruct (is_photon (c_kind c)); destruct (first_fail _); try discriminate;
+      [apply read2d_arr | apply ret_content_arr]; exact Hr.
+Qed.
+
+(* ---------------------------------------------------------------- resets leave nothing behind *)
+
+Lemma forallb_mul0 l : forallb (fun c => cell_eqb (Fin 0) c || cell_is_nan c) (map cell_mul0 l) = true.
+Proof. induction l as [|x t IH]; [reflexivity|]. cbn [map forallb]. rewrite IH. destruct x; reflexivity. Qed.
+
+Lemma forallb_zeros n : forallb (cell_eqb (Fin 0)) (repeat (Fin 0) n) = true.
+Proof. induction n; simpl; auto. Qed.
+
+Lemma reset_ok_none k o before : reset_ok k o before None = true.
+Proof. destruct o as [a|a|[a| ]|a|a| | | |o'|o'|o'|[ | ]| ]; destruct k; reflexivity. Qed.
+
+Lemma reset_ok_do_empty c o :
+  (o = OEmpty \/ o = OUpdate None \/ o = ODEmpty true) ->
+  reset_ok (c_kind c) o (c_content c) (c_content (do_empty tb c)) = true.
+Proof.
+  intros Ho. destruct (do_empty_cases c) as [-> | [Ek ->]].
+  - cbn [c_content with_content]. apply reset_ok_none.
+  - cbn [c_content with_content]. rewrite Ek.
+    destruct Ho as [-> | [-> | ->]]; simpl; apply forallb_zeros.
+Qed.
+
+(* empty(), update(None) and detector.empty(reset): the state afterwards meets the reset clause of the
+   specification (None; zeros for Pixel; zeros/NaN for the MKID phase), whatever the state before *)
+Theorem reset_leaves_nothing c o :
+  (o = OEmpty \/ o = OUpdate None \/ o = ODEmpty true) -> (o = OUpdate None -> c_kind c <> Photon) ->
+  reset_ok (c_kind c) o (c_content c) (c_content (fst (step tb c o))) = true.
+Proof.
+  destruct empty_kinds as [E1 [E2 [E3 [E4 [D1 [D2 [D3 [D4 Em]]]]]]]].
+  intros [-> | [-> | ->]] Hu.
+  - cbn [step fst]. apply reset_ok_do_empty; auto.
+  - cbn [step]. assert (Hk : is_photon (c_kind c) = false) by (destruct (c_kind c); try reflexivity; exfalso; apply Hu; reflexivity).
+    rewrite Hk. destruct (upd_none tb (c_kind c)); cbn [fst].
+    + apply reset_ok_do_empty; auto.
+    + apply reset_ok_none.
+  - cbn [step]. destruct (c_kind c) eqn:Ek.
+    + rewrite D1. cbn [fst]. rewrite <- Ek. apply reset_ok_do_empty; auto.
+    + destruct (d_empty tb Pixel) eqn:Ed; try congruence; cbn [fst]; rewrite <- Ek; apply reset_ok_do_empty; auto.
+    + rewrite D2. cbn [fst]. rewrite <- Ek. apply reset_ok_do_empty; auto.
+    + rewrite D3. cbn [fst]. rewrite <- Ek. apply reset_ok_do_empty; auto.
+    + destruct (c_content c) as [cur|] eqn:Ec; [|simpl; rewrite Ec; reflexivity].
+      rewrite Em. simpl. destruct (validate_base tb c _); simpl; apply forallb_mul0.
 Qed.
 
 End WithTables.
